@@ -76,6 +76,12 @@ func (sc *Scenario) Desc() string {
 		if p.Shape.Freshest {
 			b.WriteString(" fresh")
 		}
+		if p.Shape.FreshestDNS {
+			b.WriteString(" fresh-by-dnsname")
+		}
+		if p.Shape.Expired {
+			b.WriteString(" expired-2010")
+		}
 		if p.Shape.LongSerial {
 			b.WriteString(" long")
 		}
